@@ -589,9 +589,15 @@ func (r *run) forgeQC(b *hotstuff.Block) hotstuff.QuorumCert {
 			}
 		}
 		return hotstuff.NewQuorumCert(crypto.NewMulti(sigs...), b.View(), b.Hash())
-	case 1: // a genuine certificate relabelled with a higher view
+	case 1: // a genuine certificate relabelled with a higher or a lower view (mostly a recent one)
 		if len(r.qcPool) > 0 {
 			qc := r.qcPool[r.rng.Intn(len(r.qcPool))]
+			if r.rng.Intn(2) == 0 {
+				qc = r.qcPool[len(r.qcPool)-1-r.rng.Intn(min(len(r.qcPool), 3))]
+			}
+			if r.rng.Intn(2) == 0 && qc.View() > 0 {
+				return hotstuff.NewQuorumCert(qc.Signature(), hotstuff.View(r.rng.Intn(int(qc.View()))), qc.BlockHash())
+			}
 			return hotstuff.NewQuorumCert(qc.Signature(), qc.View()+hotstuff.View(1+r.rng.Intn(5)), qc.BlockHash())
 		}
 	case 2: // a genuine certificate attached to another block
@@ -776,6 +782,8 @@ func (r *run) adversary() {
 			gen.SetQC(qc)
 			if ob := r.someBlock(); r.rng.Intn(2) == 0 && ob.Hash() != qc.BlockHash() {
 				alt.SetQC(hotstuff.NewQuorumCert(qc.Signature(), ob.View(), ob.Hash())) // same signatures, another block
+			} else if r.rng.Intn(2) == 0 && qc.View() > 0 {
+				alt.SetQC(hotstuff.NewQuorumCert(qc.Signature(), hotstuff.View(r.rng.Intn(int(qc.View()))), qc.BlockHash())) // lower label
 			} else {
 				alt.SetQC(hotstuff.NewQuorumCert(qc.Signature(), max(qc.View(), x.VS.View())+hotstuff.View(1+r.rng.Intn(6)), qc.BlockHash()))
 			}
@@ -830,19 +838,19 @@ func (r *run) adversary() {
 				}
 				return b
 			}
-			// first: a child of a CERTIFIED block whose view is not below the proposal's own, justified by that block's genuine
-			// signatures under a lower view label (the target lags: such blocks exist)
+			// first: a child of a CERTIFIED block justified by that block's genuine signatures under a LOWER view label (if the target
+			// lags, the block's real view may even be at or above the proposal's)
 			tried := 0
 			for k := len(r.qcPool) - 1; k >= 0 && tried < 3; k-- {
 				q := r.qcPool[k]
-				if q.Signature() == nil || q.View() < view {
+				if q.Signature() == nil || q.View() == 0 {
 					continue
 				}
 				if _, known := r.blockID[q.BlockHash()]; !known {
 					continue
 				}
 				tried++
-				for _, label := range []hotstuff.View{view - 1, 0} {
+				for _, label := range []hotstuff.View{min(view, q.View()) - 1, 0} {
 					i := mkb(q.BlockHash(), hotstuff.NewQuorumCert(q.Signature(), label, q.BlockHash()), view)
 					r.logByz("stale-child", id, []envelope{{from: id, to: tgt.ID, msg: hotstuff.ProposeMsg{ID: id, Block: i}}})
 					r.deliverIdx(len(r.net) - 1)
